@@ -115,4 +115,4 @@ SPEC("pane.convert", "_annotated_converter",
 SPEC("pane.annotations", "Tagged._converter",
      ensures=[(lambda self, inner_type, handlers, result: result == TaggedUnionConverter(
          tuple(ret("pane.util:flatten_union_args", get_args(inner_type))), tag=self.tag, external=self.external, handlers=handlers), ["C12", "C18"], "wiring")],
-     raises=(lambda self, inner_type, handlers, exc: exc_is(exc, TypeError) or exc_is(exc, AttributeError) or exc_is(exc, UnsupportedAnnotation), ["C12", "C04"]))
+     raises=(lambda self, inner_type, handlers, exc: exc_is(exc, TypeError) or exc_is(exc, UnsupportedAnnotation), ["C12", "C04"]))
